@@ -22,11 +22,25 @@
   this abstraction is faithful on *values* and *panic classes* is established by the
   line-protocol correspondence, not by proof.
 
+  BODY LANGUAGE: `const | input | call | union | inter | ite i a b` (branch on an INPUT) and the
+  VALUE-controlled `gate c a`: evaluate `c` first (its calls are fetched and recorded), and only
+  if bit 0 of its value is set evaluate `a` (only then are the callees of `a` fetched); otherwise
+  ∅.  `gate` is monotone (bit 0, once set, stays set as values ascend), but with it the CALL GRAPH
+  DEPENDS ON VALUES: cycles form, grow and reshape while iterating.  `callees env ρ e` is therefore
+  relative to an assignment `ρ` of the callee values (irrelevant for gate-free bodies,
+  `Prog.NoGate`).  For this the head loop decides after EVERY pass whether its head is the
+  outermost one (as salsa's `outer_cycle` does): a later pass can re-enter a query further down
+  the stack, which then drives the iteration, and the former outermost head completes as a nested
+  head.  Differential evidence: values and panic classes of `svdriver cycle` = salsa on the
+  generated gated cases of `vh seq --profile cycle --flavours 6` (and unchanged on the gate-free
+  flavours: 1.45 M answer/reference lines identical to the model before the extension).
+
   Proofs about this file (all core Lean): `Proofs/CycleLfp.lean` (`evalExpr_mono`: `Mono` is
-  automatic for the body language; `lfp_fix`: the fuel `8 * n + 1` of `lfp` suffices;
-  `lfpL_getD`: the memoised `lfpL` of the driver = `lfp`), `Proofs/CycleSound.lean` (every
-  memo = `lfp`), `Proofs/CycleFb.lean` (fallback programs), `Proofs/CycleFuel.lean`
-  (`outOfFuel` is unreachable for well-formed programs).
+  automatic for the body language, gates included; `lfp_fix`: the fuel `8 * n + 1` of `lfp`
+  suffices; `lfpL_getD`: the memoised `lfpL` of the driver = `lfp`), `Proofs/CycleSound.lean`
+  (every memo = `lfp`, gates included), `Proofs/CycleChain*.lean` (ascending chain, termination:
+  gate-free programs), `Proofs/CycleFb*.lean` (fallback programs: gate-free),
+  `Proofs/CycleFuel.lean` (`outOfFuel` is unreachable for well-formed programs).
 
   Values are 8-bit sets represented as `Nat < 256` (`|||` union, `&&&` intersection, `0` = ⊥).
   Core Lean only.
@@ -38,7 +52,8 @@ open SalsaVerif.Gen.Stamp
 
 /-! ## Programs -/
 
-/-- bodies: monotone expressions over 8-bit sets; `ite i a b` branches on input `i ≠ 0`. -/
+/-- bodies: monotone expressions over 8-bit sets; `ite i a b` branches on input `i ≠ 0`,
+    `gate c a` on bit 0 of the VALUE of `c`. -/
 inductive Expr where
   | const (c : Nat)
   | input (i : Nat)
@@ -46,6 +61,10 @@ inductive Expr where
   | union (a b : Expr)
   | inter (a b : Expr)
   | ite (i : Nat) (a b : Expr)
+  /-- value-controlled gate: evaluate `c`; if bit 0 of its value is set evaluate `a` (only
+      then — its callees are fetched only when the gate is open), else ∅.  Monotone (bit 0, once
+      set, stays set as values ascend), but the call graph now depends on VALUES. -/
+  | gate (c a : Expr)
   deriving Repr, DecidableEq, Inhabited
 
 /-- `src/cycle.rs: CycleRecoveryStrategy` (+ the two `cycle_fn`s the harness uses). -/
@@ -83,17 +102,21 @@ def evalExpr (env ρ : Nat → Nat) : Expr → Nat
   | .union a b => evalExpr env ρ a ||| evalExpr env ρ b
   | .inter a b => evalExpr env ρ a &&& evalExpr env ρ b
   | .ite i a b => if env i % 256 ≠ 0 then evalExpr env ρ a else evalExpr env ρ b
+  | .gate c a => if evalExpr env ρ c % 2 = 1 then evalExpr env ρ a else 0
 
-/-- the (input-determined) callees of a body, in evaluation order. -/
-def callees (env : Nat → Nat) : Expr → List Nat
+/-- the callees of a body under the inputs `env` and the callee values `ρ`, in evaluation order
+    (`ρ` only matters below a `gate`: the callees of the guarded part count iff the gate is open
+    under `ρ`; for gate-free bodies this is the input-determined callee list). -/
+def callees (env ρ : Nat → Nat) : Expr → List Nat
   | .const _ => []
   | .input _ => []
   | .call j => [j]
-  | .union a b => callees env a ++ callees env b
-  | .inter a b => callees env a ++ callees env b
-  | .ite i a b => if env i % 256 ≠ 0 then callees env a else callees env b
+  | .union a b => callees env ρ a ++ callees env ρ b
+  | .inter a b => callees env ρ a ++ callees env ρ b
+  | .ite i a b => if env i % 256 ≠ 0 then callees env ρ a else callees env ρ b
+  | .gate c a => callees env ρ c ++ (if evalExpr env ρ c % 2 = 1 then callees env ρ a else [])
 
-/-- all syntactic callees (both branches). -/
+/-- all syntactic callees (both branches, open or closed gates). -/
 def allCallees : Expr → List Nat
   | .const _ => []
   | .input _ => []
@@ -101,11 +124,27 @@ def allCallees : Expr → List Nat
   | .union a b => allCallees a ++ allCallees b
   | .inter a b => allCallees a ++ allCallees b
   | .ite _ a b => allCallees a ++ allCallees b
+  | .gate c a => allCallees c ++ allCallees a
+
+/-- no value-controlled gate in the body. -/
+def Expr.noGate : Expr → Bool
+  | .const _ => true
+  | .input _ => true
+  | .call _ => true
+  | .union a b => a.noGate && b.noGate
+  | .inter a b => a.noGate && b.noGate
+  | .ite _ a b => a.noGate && b.noGate
+  | .gate _ _ => false
 
 /-- well-formed: every call targets an existing node. -/
 def Prog.Wf (P : Prog) : Prop := ∀ nd ∈ P.nodes, ∀ c ∈ allCallees nd.body, c < P.n
 
 instance (P : Prog) : Decidable P.Wf := by unfold Prog.Wf; infer_instance
+
+/-- gate-free: the call graph is determined by the inputs alone. -/
+def Prog.NoGate (P : Prog) : Prop := ∀ nd ∈ P.nodes, nd.body.noGate = true
+
+instance (P : Prog) : Decidable P.NoGate := by unfold Prog.NoGate; infer_instance
 
 /-- one round of the equations. -/
 def step (P : Prog) (env : Nat → Nat) (ρ : Nat → Nat) : Nat → Nat :=
@@ -119,22 +158,25 @@ def kleene (P : Prog) (env : Nat → Nat) : Nat → (Nat → Nat)
 /-- least fixpoint: fuel = height of the lattice (8) × nodes, + 1. -/
 def lfp (P : Prog) (env : Nat → Nat) : Nat → Nat := kleene P env (8 * P.n + 1)
 
-/-- is there a path of length `1..fuel` from `a` to `b` in the input-determined call graph? -/
-def reach (P : Prog) (env : Nat → Nat) : Nat → Nat → Nat → Bool
+/-- is there a path of length `1..fuel` from `a` to `b` in the call graph under the inputs `env`
+    and the values `ρ` (which decide the gates; irrelevant for gate-free programs)? -/
+def reach (P : Prog) (env ρ : Nat → Nat) : Nat → Nat → Nat → Bool
   | 0, _, _ => false
-  | k + 1, a, b => (callees env (P.node a).body).any (fun c => c == b || reach P env k c b)
+  | k + 1, a, b => (callees env ρ (P.node a).body).any (fun c => c == b || reach P env ρ k c b)
 
-def onCycle (P : Prog) (env : Nat → Nat) (i : Nat) : Bool := reach P env P.n i i
+def onCycle (P : Prog) (env ρ : Nat → Nat) (i : Nat) : Bool := reach P env ρ P.n i i
 
 def fallbackValue (P : Prog) (i : Nat) : Nat :=
   match (P.node i).strat with
   | .fallback v => v % 256
   | _ => 0
 
-/-- reference for fallback programs: fallback value iff on a cycle, else body over the results. -/
+/-- reference for fallback programs: fallback value iff on a cycle, else body over the results
+    (round `k + 1` decides the gates, hence the call graph, by the values of round `k`; for
+    gate-free programs the graph is input-determined and the rounds only propagate values). -/
 def fbRef (P : Prog) (env : Nat → Nat) : Nat → Nat → Nat
   | 0, _ => 0
-  | k + 1, i => if onCycle P env i then fallbackValue P i
+  | k + 1, i => if onCycle P env (fbRef P env k) i then fallbackValue P i
                 else evalExpr env (fbRef P env k) (P.node i).body
 
 def fbReference (P : Prog) (env : Nat → Nat) : Nat → Nat := fbRef P env (P.n + 1)
@@ -154,21 +196,22 @@ def kleeneL (P : Prog) (env : Nat → Nat) : Nat → List Nat
 def lfpL (P : Prog) (env : Nat → Nat) : List Nat := kleeneL P env (8 * P.n + 1)
 
 /-- `reachL k a` = the nodes reachable from `a` by a path of length `1..k`. -/
-def reachL (P : Prog) (env : Nat → Nat) : Nat → Nat → List Nat
+def reachL (P : Prog) (env ρ : Nat → Nat) : Nat → Nat → List Nat
   | 0, _ => []
   | k + 1, a =>
-    let prev := reachL P env k a
-    let next := callees env (P.node a).body ++ prev.flatMap (fun c => callees env (P.node c).body)
+    let prev := reachL P env ρ k a
+    let next := callees env ρ (P.node a).body ++
+      prev.flatMap (fun c => callees env ρ (P.node c).body)
     next.eraseDups
 
-def onCycleL (P : Prog) (env : Nat → Nat) (i : Nat) : Bool := (reachL P env P.n i).contains i
+def onCycleL (P : Prog) (env ρ : Nat → Nat) (i : Nat) : Bool := (reachL P env ρ P.n i).contains i
 
 def fbRefL (P : Prog) (env : Nat → Nat) : Nat → List Nat
   | 0 => List.replicate P.n 0
   | k + 1 =>
     let prev := fbRefL P env k
     (List.range P.n).map (fun i =>
-      if onCycleL P env i then fallbackValue P i
+      if onCycleL P env (fun j => prev.getD j 0) i then fallbackValue P i
       else evalExpr env (fun j => prev.getD j 0) (P.node i).body)
 
 def fbReferenceL (P : Prog) (env : Nat → Nat) : List Nat := fbRefL P env (P.n + 1)
@@ -269,6 +312,15 @@ def evalM (env : Nat → Nat) (read : Nat → St → Res Fetched) : Expr → St 
       | .error e => .error e
       | .ok (y, h2, s2) => .ok (x &&& y, h1 ++ h2, s2)
   | .ite i a b, s => if env i % 256 ≠ 0 then evalM env read a s else evalM env read b s
+  | .gate c a, s =>
+    match evalM env read c s with
+    | .error e => .error e
+    | .ok (x, h1, s1) =>
+      if x % 2 = 1 then
+        match evalM env read a s1 with
+        | .error e => .error e
+        | .ok (y, h2, s2) => .ok (y, h1 ++ h2, s2)
+      else .ok (0, h1, s1)
 
 /-- `recover_from_cycle` / the `FallbackImmediate` replacement for a cycle head. -/
 def cycleFn (P : Prog) (j : Nat) (last v : Nat) : Nat :=
@@ -307,11 +359,14 @@ def converged (cache1 : List (Nat × Entry)) (prov : List (Nat × Nat)) : Bool :
     complete_cycle_participant, try_complete_cycle_head).
     `s` has `j` on top of the stack.  A query that completes while a cycle head is active below
     it is provisional (`cache`); a head with no head below it is the outermost head and drives
-    the iteration; `outer` records that `j` already iterated as the outermost head (it then stays
-    the outermost head of its cycle).  Structural recursion on `fuel` =
-    `MAX_ITERATIONS + 1 − iteration`. -/
-def executeMaybeIterate (P : Prog) (env : Nat → Nat) (read : Nat → St → Res Fetched) (j : Nat)
-    (outer : Bool) : Nat → Nat → St → Res Fetched
+    the iteration.  This is decided afresh after every pass (as `try_complete_query: outer_cycle`
+    does): with value-controlled gates a later pass of a head that already iterated can re-enter
+    a query further down the stack, which then is the outermost head, and the former one
+    completes as a nested head.  (Without gates the order of the depth-first search does not
+    depend on values and a head that iterated once stays the outermost one.)  Structural
+    recursion on `fuel` = `MAX_ITERATIONS + 1 − iteration`. -/
+def executeMaybeIterate (P : Prog) (env : Nat → Nat) (read : Nat → St → Res Fetched) (j : Nat) :
+    Nat → Nat → St → Res Fetched
   | 0, _, s => .error ⟨.outOfFuel, s.stack⟩
   | fuel + 1, stamp, s =>
     match evalM env read (P.node j).body s with
@@ -319,7 +374,7 @@ def executeMaybeIterate (P : Prog) (env : Nat → Nat) (read : Nat → St → Re
     | .ok (v, hs, s1) =>
       -- the heads that are still active once `j` is popped
       let hs' := hs.filter (fun k => k != j)
-      let below := !outer && s1.stack.tail.any (isHead s1.prov)
+      let below := s1.stack.tail.any (isHead s1.prov)
       match s1.prov.lookup j with
       | none =>
         if below then
@@ -348,7 +403,7 @@ def executeMaybeIterate (P : Prog) (env : Nat → Nat) (read : Nat → St → Re
             match IterationStamp.increment_iteration stamp with
             | none => .error ⟨.tooManyIterations, s1.stack⟩
             | some stamp' =>
-              executeMaybeIterate P env read j true fuel stamp'
+              executeMaybeIterate P env read j fuel stamp'
                 { s1 with prov := updateProv cache1 s1.prov, cache := [], iters := s1.iters + 1 }
 
 /-- fuel of the head loop. -/
@@ -358,7 +413,7 @@ def loopFuel : Nat := MAX_ITERATIONS + 1
 def execute (P : Prog) (env : Nat → Nat) : Nat → Nat → St → Res Fetched
   | 0, _, s => .error ⟨.outOfFuel, s.stack⟩
   | d + 1, j, s =>
-    executeMaybeIterate P env (fetch P (execute P env d)) j false loopFuel
+    executeMaybeIterate P env (fetch P (execute P env d)) j loopFuel
       (IterationStamp.initial 0) { s with stack := j :: s.stack }
 
 def St.init (final : List (Nat × Nat)) (poisoned : List Nat) : St :=
